@@ -121,3 +121,16 @@ package server
 //@   at-call (*allocation.Allocation).AddChannelBind assert [C07:timeouts] arg1 == req.ChannelBindTimeout && arg2 == req.PermissionTimeout
 //@   at-call (*allocation.Allocation).AddChannelBind assert [C01,C08:binding] int(arg0.Number) == be16(attr(stunMsg, stun.AttrChannelNumber), 0) && peerMatches(arg0.Peer, stunMsg)
 //@   ensures [C03:answered-only-requester] forall c :: c != req.Conn ==> pktWrites[c] == old(pktWrites[c])
+
+//@      // ---- demultiplexing (C05, C09): a datagram is ChannelData exactly when its first four bytes say so
+//@      // (valid channel number, declared length fits) - never because of what its payload bytes look like
+//@ spec func isChanDatagram(b []byte) bool = len(b) >= 4 && 0x4000 <= be16(b, 0) && be16(b, 0) <= 0x7FFF && be16(b, 2) <= len(b) - 4
+
+//@ func HandleRequest
+//@   requires reqWF(r) && ownWF(r) && r.SrcAddr != nil
+//@   at-call handleDataPacket assert [C05,C09:demux-channel] isChanDatagram(r.Buff) && sameSlice(arg0.Buff, r.Buff) && arg0.Conn == r.Conn && arg0.SrcAddr == r.SrcAddr && arg0.AllocationManager == r.AllocationManager
+//@   at-call handleTURNPacket assert [C05,C09:demux-stun] !isChanDatagram(r.Buff) && sameSlice(arg0.Buff, r.Buff) && arg0.Conn == r.Conn && arg0.SrcAddr == r.SrcAddr && arg0.AllocationManager == r.AllocationManager
+
+//@ func handleDataPacket
+//@   requires reqWF(req) && ownWF(req) && req.SrcAddr != nil
+//@   at-call handleChannelData assert [C05:decoded] int(arg1.Number) == be16(req.Buff, 0) && sameSlice(arg1.Data, req.Buff[4:4+be16(req.Buff, 2)]) && arg0.Conn == req.Conn && arg0.SrcAddr == req.SrcAddr && arg0.AllocationManager == req.AllocationManager
